@@ -53,6 +53,31 @@ CLAIMED = {
         technique="Lean 4 semantic-preservation proofs of rewrites over the executable compile model + correspondence check",
         note="copy is the identity on the immutable model; sharing is checked on the implementation by mutation probes.",
         ref="§5 C09"),
+    "C17": dict(
+        text="Lean theorems for all contents (values in any additive commutative monoid, any states, duplicates, empty "
+             "rows): construction decision, pair/nested/array indexing coherence and order, subscript refusals, mapped "
+             "result = image with summed weights (exact closed form for SimulationResult under every set iteration "
+             "order, exact including order for SamplingResult), per-input total conserved, outputs = images, amplitudes "
+             "refused, composition law with idempotence and invert-twice corollaries, sampling round trip. Tied to the "
+             "code by differential execution on generated results with dyadic values; the clauses are evaluated on the "
+             "implementation as oracle.",
+        technique="Lean 4 proofs over an association-list model of the result containers (accumulate, dedup, regroup "
+                  "lemmas) + correspondence check with the set-iteration order as a tape",
+        note="Modelled, not verified: numpy indexing/zeros, Python set iteration order (passed to the model as a tape).",
+        ref="§5 C17"),
+    "C18": dict(
+        text="Lean theorems for ALL integer occupation lists, label lists, herald dictionaries (any key order), slices, "
+             "seeds and dimensions: eq/hash coherence with str injective, + and merge laws, full Python subscript/slice "
+             "semantics, API-immutability as a frame theorem over client programs (F14 kept as a pinned counterexample), "
+             "herald add/remove round trips both ways, dB inverse laws over the reals from exp/log laws, seed decision "
+             "table, permutation-matrix validity. The model is tied to the code by differential execution on generated "
+             "queries; every clause is also evaluated on the implementation against plain Python semantics, so a defect "
+             "yields a concrete replay.",
+        technique="Lean 4 proofs over an executable list model (Python slice semantics, sort/perm, herald insert/remove, "
+                  "alias world) + model/implementation correspondence check",
+        note="Trusted externals: scipy.stats.unitary_group.rvs and numpy's Generator.permutation (validated per call), "
+             "Python hash(str), float 10**x / log10.",
+        ref="§5 C18"),
 }
 
 PENDING_REASON = "check not built yet in this session (planned, see DESIGN.md §5 and §11); not claimed until its machinery exists"
